@@ -299,7 +299,9 @@ class Stream(APIRegisterMixin):
         else:
             for upstream in self.upstreams:
                 if upstream and upstream.asynchronous:
-                    self.asynchronous = upstream.asynchronous
+                    # also tells the other upstreams, which may not have a
+                    # mode yet (they get the loop through _set_loop)
+                    self._inform_asynchronous(upstream.asynchronous)
                     break
 
     def _inform_asynchronous(self, asynchronous):
